@@ -24,14 +24,16 @@ func runC08(c *Ctx) {
 	c.Clause("C08.4 range validations are present on every success path: stream counts, ack_delay_exponent, max_ack_delay, active_connection_id_limit, max_udp_payload_size, connection-ID lengths, perspective-forbidden parameters, duplicate-parameter scan over every adjacent pair, Retire Prior To ≤ Sequence Number, reliable size ≤ final size, missing required parameters")
 	c.Clause("C08.5 transport-parameter tables: every ID Marshal writes is handled by unmarshal; unmarshal's numeric case list equals readNumericTransportParameter's")
 	c.NotCovered("decode(encode(x)) == x and re-encoding stability (value-level)")
-	c.NotCovered("totality beyond the connection-ID bound: the remaining ~130 slice/index sites of the parsers are not discharged here (the idiom-based bounds analysis of DESIGN §2 BND was not built); fixed-width byte counts in Append vs Length")
-	c.NotCovered("address-validation tokens and session tickets (asn1 / own AEAD-protected formats)")
+	c.Clause("C08.6 totality of the parse side: every index, slice, computed-size allocation, explicit panic, unchecked type assertion and integer division in the functions reachable from the parse entry points of internal/wire, quicvarint and the token / session-ticket decoders of internal/handshake is either a bounds check the Go compiler's prove pass removed, or follows from a length fact established for that very slice (dominating comparison, quicvarint.Parse's error-free edge, construction, checked caller contract), or is a frozen exception with its reason")
+	c.NotCovered("fixed-width byte counts in Append vs Length; totality of the writers (Append on frames built by this endpoint) and of the logging helpers")
+	c.NotCovered("encoding/asn1 itself (tokens) and the AEAD layer around tokens and session tickets")
 
 	c.rule("C08.1", func() { c08Tables(c) })
 	c.rule("C08.2", func() { c08Len(c) })
 	c.rule("C08.3", func() { c08ConnIDBounds(c); c08Varint(c) })
 	c.rule("C08.4", func() { c08Validations(c) })
 	c.rule("C08.5", func() { c08Params(c) })
+	c.rule("C08.6", func() { c08Bounds(c) })
 }
 
 // ---- helpers ----
@@ -1594,5 +1596,111 @@ func c08Params(c *Ctx) {
 	// every declared ID has an unmarshal case (otherwise it is silently skipped by the default case)
 	for k, name := range declared {
 		c.Check(handled[k], R, "table:unmarshal has a case for "+name, c.P.Pos(um.Pos()), "a declared parameter without a case is skipped as unknown")
+	}
+}
+
+// ---- C08.6 ----
+
+// bndWireExceptions: sites of the parse side that the length-fact rules cannot discharge, with the reason each is safe.
+var bndWireExceptions = map[string]string{
+	"(internal/wire.FrameType).isAllowedAtEncLevel#panic#1": "default case of a switch over the packet's encryption level, a value of the receive path's own enum (Initial/Handshake/0-RTT/1-RTT), not taken from the wire",
+	"internal/protocol.ParseConnectionID#panic#1":           "panics on more than 20 bytes; C08.3 shows that every caller in the parsers bounds the length by MaxConnIDLen first",
+	"internal/wire.GetStreamFrame#assert#1":                 "sync.Pool whose New function and every Put store *StreamFrame",
+	"internal/wire.ParseVersionNegotiationPacket#index[v]#1":   "versions has len(b)/4 elements and i counts the loop's iterations, each of which consumes 4 bytes of a b whose length was tested to be a positive multiple of 4 (modular arithmetic, outside the engine's domain)",
+	"internal/wire.ParseVersionNegotiationPacket#slice[:4]#1":   "b[:4] inside `for len(b) > 0` with len(b)%4 == 0 established before the loop and preserved by b = b[4:]",
+	"internal/wire.ParseVersionNegotiationPacket#slice[4:]#1":   "b[4:] inside the same loop (see slice2)",
+}
+
+func c08Bounds(c *Ctx) {
+	const R = "C08.6"
+	roots, missing := bndWireRoots(c.P)
+	for _, m := range missing {
+		c.Bad(R, "root:"+m, "-", "parse entry point not found")
+	}
+	inPkg := func(pk string) bool {
+		return pk == modPath+"/internal/wire" || pk == modPath+"/quicvarint" || pk == modPath+"/internal/protocol"
+	}
+	fns := c.P.reachStatic(roots, inPkg)
+	c.Floor(R, "functions reachable from the parse entry points", len(fns), 50)
+	unp, err := compilerUnproven(c.P.RepoDir, c.P.GOARCH, []string{"./internal/wire/", "./quicvarint/", "./internal/protocol/"})
+	if err != nil {
+		c.Err(R, "compiler bounds-check listing", err)
+		return
+	}
+	// the listing must be alive: an empty listing would make every site "proven"
+	c.Floor(R, "bounds checks the compiler could not remove (listing alive)", len(unp), 60)
+	sites := c.P.bndSites(fns, unp, bndWireExceptions)
+	c.Floor(R, "index/slice/make/panic/assert/div sites on the parse side", len(sites), 120)
+	cnt := map[string]int{}
+	usedEx := map[string]bool{}
+	for _, s := range sites {
+		c.FuncsSet[funcName(s.Fn)] = true
+		cnt[s.How]++
+		key := s.Expr
+		if i := strings.Index(key, " ("); i > 0 {
+			key = key[:i]
+		}
+		if s.How == "X" {
+			usedEx[key] = true
+		}
+		how := map[string]string{"P": "compiler-proven", "F": "length fact", "X": "exception", "": "undischarged"}[s.How]
+		c.Check(s.OK, R, "bnd:"+key, c.P.InstrPos(s.Instr), fmt.Sprintf("%s — %s: %s", s.Expr, how, s.Why))
+	}
+	c.Count("C08.6 discharged by the compiler's prove pass", cnt["P"])
+	c.Count("C08.6 discharged by length facts", cnt["F"])
+	c.Count("C08.6 frozen exceptions", cnt["X"])
+	for k := range bndWireExceptions {
+		c.Check(usedEx[k], R, "exception-live:"+k, "-", "a frozen exception that no longer matches a site must be removed from the table")
+	}
+	// the token and session-ticket decoders (own AEAD-protected formats, decoded with encoding/asn1 / quicvarint)
+	var hroots []*ssa.Function
+	for _, r := range [][3]string{{"internal/handshake", "TokenGenerator", "DecodeToken"}, {"internal/handshake", "sessionTicket", "Unmarshal"}, {"internal/handshake", "tokenProtector", "DecodeToken"}} {
+		f, err := c.P.Func1(r[0], r[1], r[2])
+		if err != nil {
+			c.Bad(R, "root:"+r[1]+"."+r[2], "-", "decode entry point not found")
+			continue
+		}
+		hroots = append(hroots, f)
+	}
+	hfns := c.P.reachStatic(hroots, func(pk string) bool { return pk == modPath+"/internal/handshake" })
+	hunp, err := compilerUnproven(c.P.RepoDir, c.P.GOARCH, []string{"./internal/handshake/"})
+	if err != nil {
+		c.Err(R, "compiler bounds-check listing (handshake)", err)
+		return
+	}
+	c.Floor(R, "bounds checks the compiler could not remove in internal/handshake (listing alive)", len(hunp), 10)
+	hs := c.P.bndSites(hfns, hunp, nil)
+	c.Floor(R, "sites in the token / session ticket decoders", len(hs), 4)
+	for _, st := range hs {
+		c.FuncsSet[funcName(st.Fn)] = true
+		key := st.Expr
+		if i := strings.Index(key, " ("); i > 0 {
+			key = key[:i]
+		}
+		c.Check(st.OK, R, "bnd:"+key, c.P.InstrPos(st.Instr), fmt.Sprintf("%s — %s", st.Expr, st.Why))
+	}
+	// parameter contracts are established at every call site
+	for fnName, pc := range paramContracts {
+		var fn *ssa.Function
+		for _, f := range fns {
+			if funcName(f) == fnName {
+				fn = f
+			}
+		}
+		if fn == nil {
+			c.Bad(R, "contract:"+fnName, "-", "function with a parameter contract not found on the parse side")
+			continue
+		}
+		si, ni := -1, -1
+		for i, q := range fn.Params {
+			if q.Name() == pc.slice {
+				si = i
+			}
+			if q.Name() == pc.atLeast {
+				ni = i
+			}
+		}
+		ok, why := c.P.callersEstablish(fn, si, ni, 0, 0)
+		c.Check(si >= 0 && ni >= 0 && ok, R, "contract:"+fnName+" len("+pc.slice+") >= "+pc.atLeast+" at every call site", c.P.Pos(fn.Pos()), why)
 	}
 }
